@@ -264,19 +264,26 @@ def part_b(ctx):
     t2 = time.time()
     shrunk = shrink_lines(ctx, [l for _, l in failing], "shrink")
     ctx.cov["shrink_s"] = round(time.time() - t2, 1)
+    groups = {}
     for (level, line), (stt, key, wit, src) in zip(failing, shrunk):
         if stt != "fail":
             # not reproducible in a fresh process: report the original line
             ctx.violation(f"engexpr S{level}: `{line}` failed in the batch run but not when replayed alone ({stt})",
                           {"kind": "impl!=oracle", "ops": [line]}, key=None, kind="impl!=oracle")
             continue
+        groups.setdefault(key, []).append((level, line, wit, src))
+    ctx.cov["signatures_hit"] = {k: len(v) for k, v in groups.items()}
+    for key, members in groups.items():
+        # one report per signature: the smallest witness, the others listed in the replay file
+        level, line, wit, src = min(members, key=lambda m: (len(m[2]), m[2]))
         cls = "+".join(ENGINE_CLASSES.get(c, c) for c in key.split(":")[0].split("+"))
         body = {"kind": "impl!=oracle", "key": key, "witness": wit, "veryl": src, "original": line, "stratum": f"S{level}",
-                "seed": ctx.seed,
+                "seed": ctx.seed, "designs_with_this_signature": len(members),
+                "other_witnesses": sorted(set(m[2] for m in members) - {wit})[:20],
                 "replay": f"{HX} engexpr --replay <file with the witness line> --out DIR ; {VMODEL} exprref < DIR/ops.txt "
                           f"(reference value) ; impl.txt lists every engine, oracle.txt the compile-time value"}
-        ctx.violation(f"S{level}: {cls} deviate(s) from the IEEE 1800 value on `{src}` [{wit}] — signature {key}", body,
-                      key=key, kind="impl!=oracle")
+        ctx.violation(f"S{level}: {cls} deviate(s) from the IEEE 1800 value on `{src}` [{wit}] — signature {key} "
+                      f"({len(members)} design(s))", body, key=key, kind="impl!=oracle")
 
 
 def run(ctx):
